@@ -781,3 +781,42 @@ pub fn run(args: &Args, out: &mut Out) {
         }
     }
 }
+
+/// minimal input of the recorded finding C13-residual-slot-panic (stream `c13-repro`, prints to stdout)
+pub fn repro(_args: &Args, out: &mut Out) {
+    use cedar_policy_core::ast::{PolicyID, SlotId};
+    use cedar_policy_core::parser;
+    let t = parser::parse_policy_or_template(
+        Some(PolicyID::from_string("T")),
+        "permit(principal == User::\"a\", action, resource == ?resource) when { context.nosuch };",
+    )
+    .expect("template");
+    let mut ps = PolicySet::new();
+    ps.add_template(t).expect("add template");
+    let mut vals = HashMap::new();
+    vals.insert(SlotId::resource(), gen::mk_uid("NS::Doc", "d"));
+    ps.link(PolicyID::from_string("T"), PolicyID::from_string("p0"), vals).expect("link");
+    let q = Request::new_with_unknowns(
+        EntityUIDEntry::unknown(),
+        EntityUIDEntry::known(gen::mk_uid("Action", "a"), None),
+        EntityUIDEntry::known(gen::mk_uid("NS::Doc", "d"), None),
+        Some(Context::empty()),
+        None::<&RequestSchemaAllPass>,
+        ext(),
+    )
+    .expect("request");
+    let es = Entities::new();
+    let auth = Authorizer::new();
+    let pr = auth.is_authorized_core(q, &ps, &es);
+    for (id, (e, _)) in pr.residual_permits.iter() {
+        println!("residual of {}: {}", id.as_ref() as &str, e);
+    }
+    println!("decision: {:?}", pr.decision());
+    let may = catch_unwind(AssertUnwindSafe(|| may_ids(&pr)));
+    println!("may_be_determining: {}", match may { Ok(v) => format!("{v:?}"), Err(p) => format!("PANIC: {}", panic_msg(p)) });
+    let mut sigma: Sigma = HashMap::new();
+    sigma.insert("principal".into(), Value::from(gen::mk_uid("User", "a")));
+    let re = catch_unwind(AssertUnwindSafe(|| pr.reauthorize(&sigma, &auth, &es).map(|r| presp_sx(&r))));
+    println!("reauthorize(principal := User::\"a\"): {}", match re { Ok(Ok(s)) => s, Ok(Err(e)) => format!("error: {e}"), Err(p) => format!("PANIC: {}", panic_msg(p)) });
+    out.count("repro");
+}
